@@ -19,7 +19,14 @@ Inductive key :=
 
 Definition key_eq_dec : forall a b : key, {a = b} + {a <> b}.
 Proof. decide equality; apply N.eq_dec. Defined.
-Definition key_eqb (a b : key) : bool := if key_eq_dec a b then true else false.
+(* structural boolean equality (fast under vm_compute; equivalent to key_eq_dec, see CrashProofs.key_eqb_true) *)
+Definition key_eqb (a b : key) : bool :=
+  match a, b with
+  | KHeader x, KHeader y | KIdx x, KIdx y | KBody x, KBody y | KEvents x, KEvents y | KTemp x, KTemp y
+  | KState x, KState y | KDiff x, KDiff y => x =? y
+  | KFin, KFin | KTipMark, KTipMark => true
+  | _, _ => false
+  end.
 
 Definition db := key -> option N.
 Definition upd (d : db) (k : key) (v : option N) : db := fun k' => if key_eqb k' k then v else d k'.
